@@ -59,4 +59,3 @@ fn c06_from_root_is_the_reverse_chain_bounded() {
     while n > 0 { n -= 1; assert!(it.next().map(|g| g.id().into_u64()) == Some(chain[n]), "C06.from_root.root_to_leaf_order"); }
     assert!(it.next().is_none(), "C06.from_root.nothing_else");
 }
-
